@@ -541,6 +541,12 @@ def run(program, ctx):
     c01.rule_tagindex(program, ctx, prop=P, rid="C02.tagindex")
     c01.rule_emptylist(program, ctx, prop=P, rid="C02.emptylist")
     rule_rows(program, ctx)
+    from ..lib import rule_ge0_truthiness
+    from . import c13 as _c13
+
+    rule_ge0_truthiness(program, ctx, P, "C02.ge0")
+    # a sender that drops queued items (or the EOSE) of a subscription id loses stored events of a REQ that re-uses the id
+    _c13.rule_sender(program, ctx, prop=P, rid="C02.sender")
     from . import c07 as _c07
 
     # an index write that fails must abort the record's transaction: a record without its index entries is stored but never found
